@@ -4,13 +4,16 @@
 package c05
 
 import (
+	"context"
 	"encoding/json"
+	"errors"
 	"fmt"
-	"os"
-	"time"
+	"github.com/openfga/openfga/pkg/storage"
 	"math/rand"
+	"os"
 	"sort"
 	"strings"
+	"time"
 
 	openfgav1 "github.com/openfga/api/proto/openfga/v1"
 
@@ -92,6 +95,22 @@ func run(c *vk.Ctx) {
 	if err2 == nil {
 		defer trunc2.Close()
 	}
+	// read faults: servers (one per engine) whose datastore fails the reads of chosen relations of a
+	// store with a timeout or a plain error; an answer given nevertheless must still be sound
+	faultSrvs = nil
+	for _, eng := range []string{"classic", "optimized", "pipeline"} {
+		var ods *drive.ObsDS
+		fs, ferr := drive.NewShared(drive.Cfg{LOEngine: eng, WrapDS: func(ds storage.OpenFGADatastore) storage.OpenFGADatastore {
+			ods = drive.NewObsDS(ds)
+			return ods
+		}}, base)
+		if ferr != nil {
+			c.HarnessError("server: %v", ferr)
+			return
+		}
+		defer fs.Close()
+		faultSrvs = append(faultSrvs, faultSrv{eng, fs, ods})
+	}
 	nCases := c.Pick(200, 900)
 	sem.RunCases(c, base, "mem", nCases, gen.Options{WideEvery: 3, AlgebraEvery: 4, HierarchyEvery: 6}, 4, 8, func(i int, r *rand.Rand, p *sem.Prepared, contextual []*openfgav1.TupleKey) {
 		oneCase(c, i, r, p, contextual, servers, []*drive.Srv{trunc, trunc2})
@@ -167,6 +186,32 @@ func oneCase(c *vk.Ctx, i int, r *rand.Rand, p *sem.Prepared, contextual []*open
 					}
 				}
 				judge(c, p, rc, contextual, ns, mode, streamed, x.t, x.rel, x.subj, x.want, x.anyE, lo)
+			}
+			if qi < 4 && rctx == ctxs[0] && (p.Case.Features["exclusion"] || p.Case.Features["intersection"]) {
+				// the same request while the reads of one or two relations of this store fail
+				// relations the requested one depends on (through computed usersets and tuple-to-userset
+				// targets, a few levels): each in turn, so that the subtracted / intersected operands are hit
+				rels := dependsOn(p.Ref, x.t, x.rel)
+				r.Shuffle(len(rels), func(a, b int) { rels[a], rels[b] = rels[b], rels[a] })
+				if len(rels) > 3 {
+					rels = rels[:3]
+				}
+				for _, frel := range rels {
+					ferr := error(context.DeadlineExceeded)
+					if r.Intn(4) == 0 {
+						ferr = errors.New("injected datastore failure")
+					}
+					for _, fs := range faultSrvs {
+						fs.ods.FailReads(p.Store, []string{frel}, ferr)
+						lo := fs.s.ListObjects(rq)
+						fs.ods.FailReads(p.Store, nil, nil)
+						c.Count("read_fault_requests", 1)
+						if lo.Err == nil && !lo.Hung {
+							c.Count("read_fault_requests_answered", 1)
+							judgeSound(c, p, rc, contextual, fs.name+"+read-fault", mode, x.t, x.rel, x.subj, x.want, lo.Items)
+						}
+					}
+				}
 			}
 			if qi < 3 {
 				for ti, ts := range truncs {
@@ -321,4 +366,63 @@ func witness(p *sem.Prepared, rc *ref.Case, contextual []*openfgav1.TupleKey, cf
 	w := sem.Witness(p, cfg, mode, sem.Request{Object: t, Relation: rel, User: subj, Ctx: rc.Context}, contextual, strings.Join(want, ","), strings.Join(got, ","))
 	sem.AddWire(w, p, contextual, rc.Context)
 	return w
+}
+
+type faultSrv struct {
+	name string
+	s    *drive.Srv
+	ods  *drive.ObsDS
+}
+
+var faultSrvs []faultSrv
+
+// dependsOn lists the relation names the rewrite of typ#rel mentions, transitively through computed
+// usersets of the same type (bounded), including tupleset relations and tuple-to-userset targets.
+func dependsOn(rm *ref.Model, typ, rel string) []string {
+	seen := map[string]bool{}
+	var out []string
+	add := func(n string) {
+		if !seen[n] {
+			seen[n] = true
+			out = append(out, n)
+		}
+	}
+	var walkRel func(r string, depth int)
+	var walk func(u *openfgav1.Userset, self string, depth int)
+	walk = func(u *openfgav1.Userset, self string, depth int) {
+		switch v := u.GetUserset().(type) {
+		case *openfgav1.Userset_This:
+			add(self)
+		case *openfgav1.Userset_ComputedUserset:
+			add(v.ComputedUserset.GetRelation())
+			walkRel(v.ComputedUserset.GetRelation(), depth+1)
+		case *openfgav1.Userset_TupleToUserset:
+			add(v.TupleToUserset.GetTupleset().GetRelation())
+			add(v.TupleToUserset.GetComputedUserset().GetRelation())
+		case *openfgav1.Userset_Union:
+			for _, ch := range v.Union.GetChild() {
+				walk(ch, self, depth)
+			}
+		case *openfgav1.Userset_Intersection:
+			for _, ch := range v.Intersection.GetChild() {
+				walk(ch, self, depth)
+			}
+		case *openfgav1.Userset_Difference:
+			walk(v.Difference.GetBase(), self, depth)
+			walk(v.Difference.GetSubtract(), self, depth)
+		}
+	}
+	visited := map[string]bool{}
+	walkRel = func(r string, depth int) {
+		if depth > 4 || visited[r] {
+			return
+		}
+		visited[r] = true
+		if rw := rm.Rewrite(typ, r); rw != nil {
+			walk(rw, r, depth)
+		}
+	}
+	walkRel(rel, 0)
+	sort.Strings(out)
+	return out
 }
